@@ -45,7 +45,9 @@ func CreateEmsgAhead(segStart, segEnd, timescale uint64, perMinute int) (*mp4.Em
 	case 3:
 		spliceInsertTimes = []uint64{minuteStart + 10*timescale, minuteStart + 36*timescale, minuteStart + 46*timescale}
 	}
-	// We do not need to look into next minute, since first start is 10s after full minute.
+	// A segment starting before a full minute may still cover the announce time (3s after the full minute)
+	// of the first splice of the next minute.
+	spliceInsertTimes = append(spliceInsertTimes, minuteStart+70*timescale)
 	inInterval := false
 	var spliceTime uint64
 	for _, sit := range spliceInsertTimes {
